@@ -265,6 +265,33 @@ def a6(prog, ctx):
                              % type(bad[0]).__name__)
                 else:
                     ctx.ok("A6", "%s:%d" % (m.rel, c.lineno), "%s: mtime compared for (in)equality" % q)
+    # a modification time handed to anything but == / != : approximate comparison (math.isclose, abs(a - b) < eps), ordering helpers
+    for m, q, f in prog.all_functions():
+        if m.rel not in ("src/gtf2db.py", "src/read_mapper.py"):
+            continue
+        for c in walk_no_nested(f):
+            if not (isinstance(c, ast.Call) and (call_name(c) or "").endswith("getmtime")):
+                continue
+            par = getattr(c, "_parent", None)
+            if isinstance(par, ast.Call) and c in par.args and (call_name(par) or "").split(".")[-1] in ("isclose", "abs", "round", "int", "min", "max"):
+                n += 1
+                ctx.fail("A6", par, q, src(par)[:90], "a modification time goes through %s(...) before it decides whether a cached artefact is "
+                         "still valid: two different states of a file whose times differ by less than the tolerance (a relative tolerance "
+                         "of 1e-9 is about two seconds for epoch times) are taken for the same file" % call_name(par))
+            elif isinstance(par, ast.BinOp) and isinstance(par.op, ast.Sub):
+                n += 1
+                ctx.fail("A6", par, q, src(par)[:90], "the difference of two modification times is computed: validity of a cached artefact is "
+                         "decided by closeness instead of equality")
+    # a wrapper that compares exactly counts for each of its call sites
+    wrappers = set()
+    for m, q, f in prog.all_functions():
+        if m.rel in ("src/gtf2db.py", "src/read_mapper.py") and "." not in q and len(f.body) <= 5 and any(
+                isinstance(c, ast.Compare) and all(isinstance(o, (ast.Eq, ast.NotEq)) for o in c.ops)
+                and any(isinstance(x, ast.Call) and (call_name(x) or "").endswith("getmtime") for x in ast.walk(c)) for c in walk_no_nested(f)):
+            wrappers.add(f.name)
+    if wrappers:
+        n += sum(1 for m, q, f in prog.all_functions() if m.rel in ("src/gtf2db.py", "src/read_mapper.py")
+                 for c in walk_no_nested(f) if isinstance(c, ast.Call) and (call_name(c) or "").split(".")[-1] in wrappers)
     ctx.floor("A6", "comparisons of recorded modification times", n, 8)
 
 
@@ -395,7 +422,51 @@ def a9(prog, ctx, shared):
     ctx.ok("A9", "all modules", "%d deletions of files listed from the shared directory" % n, nontrivial=False)
 
 
+def a10(prog, ctx):
+    """An alignment that is registered in the per-user cache can be used by a concurrent run at once: when store_alignment(<bam>, ...) is
+    called, the BAM is sorted AND indexed - pysam's index call lies on every path of the producer before it returns the path, not in a
+    later batch step."""
+    RM = "src/read_mapper.py"
+    n = 0
+    for m, q, f in prog.all_functions():
+        if m.rel != RM:
+            continue
+        for c in walk_no_nested(f):
+            if not (isinstance(c, ast.Call) and call_name(c) == "store_alignment" and c.args and isinstance(c.args[0], ast.Name)):
+                continue
+            n += 1
+            defs = [st.value for st in walk_no_nested(f) if isinstance(st, ast.Assign) and any(src(t) == c.args[0].id for t in st.targets)
+                    and isinstance(st.value, ast.Call) and prog.try_func(RM, (call_name(st.value) or "").split(".")[-1]) is not None
+                    and not (call_name(st.value) or "").startswith("find_")]
+            if not defs:
+                ctx.undecided("A10", c, q, "the producer call of the registered alignment %s was not found" % c.args[0].id)
+                continue
+            for d in defs:
+                prod = prog.func_inlined(RM, (call_name(d) or "").split(".")[-1])
+                missing = None
+                for pth in flow.paths(prod):
+                    if pth.exit != "return" or pth.exit_node is None or pth.exit_node.value is None:
+                        continue
+                    if any(isinstance(st, ast.Expr) and isinstance(st.value, ast.Call) and (call_name(st.value) or "") in ("exit", "sys.exit", "os._exit", "quit")
+                           for st in pth.stmts()):
+                        continue          # the process ends on this path
+                    indexed = any(isinstance(x, ast.Call) and (call_name(x) or "") in ("pysam.index", "pysam.samtools.index")
+                                  for st in pth.stmts() for x in ast.walk(st) if not isinstance(st, (ast.For, ast.While, ast.If, ast.With, ast.Try)))
+                    if not indexed:
+                        missing = pth
+                        break
+                if missing is not None:
+                    ctx.fail("A10", c, q, src(c)[:80], "%s is registered in the shared alignment cache, but its producer %s returns on the path "
+                             "[%s] without having indexed it: a concurrent run that finds the entry opens a BAM whose index does not exist "
+                             "yet and aborts" % (c.args[0].id, call_name(d), missing.describe()[:120]))
+                else:
+                    ctx.ok("A10", "%s:%d" % (RM, c.lineno), "%s: %s() indexes the BAM on every path before returning it" % (q, call_name(d)))
+    ctx.floor("A10", "registrations of alignments in the shared cache", n, 1)
+
+
 def run(prog, ctx):
+    ctx.rule("A10", "the producer call whose result is passed to store_alignment runs pysam.index on every path that returns a BAM path")
+    a10(prog, ctx)
     ctx.rule("A8", "every path built under tempfile.gettempdir() contains a process-private component (pid, uuid, mkstemp ...)")
     a8(prog, ctx)
     ctx.rule("A9", "no os.remove / unlink / rmtree is applied to a name obtained by listing a directory derived from the shared per-user "
